@@ -12,3 +12,46 @@ fn u18_1_tile_roundtrip() {
     assert!(tx == x, "tile x survives tile->world->tile");
     assert!(ty == y, "tile y survives tile->world->tile");
 }
+
+pub fn stub_format(_args: core::fmt::Arguments<'_>) -> String {
+    String::new()
+}
+
+// MPHD: write(read(bytes)) reproduces the 32 payload bytes for every header the reader accepts (every defined flag
+// combination, with and without the FileDataID reinterpretation), so every word is read from and written to its own slot
+// @harness unit=U18.2 props=C18 kind=complete timeout=600 target="chunks/mphd.rs: MphdChunk::read / write (all 2^256 payloads)" oracle=wdt_roundtrip
+#[kani::proof]
+#[kani::unwind(9)]
+#[kani::stub(alloc::fmt::format, stub_format)]
+fn u18_2_mphd_codec() {
+    use crate::chunks::{Chunk, MphdChunk};
+    let buf: [u8; 32] = kani::any();
+    let mut src: &[u8] = &buf[..];
+    let c = match MphdChunk::read(&mut src, 32) {
+        Ok(c) => c,
+        Err(e) => {
+            core::mem::forget(e);
+            // only undefined flag bits are refused
+            let flags = u32::from_le_bytes([buf[0], buf[1], buf[2], buf[3]]);
+            assert!(flags & !0xFFFF != 0, "a header with only defined flag bits is accepted");
+            return;
+        }
+    };
+    assert!(src.is_empty(), "read consumes the 32 bytes");
+    let mut out = [0xAAu8; 40];
+    let left = {
+        let mut w: &mut [u8] = &mut out[..];
+        match c.write(&mut w) {
+            Ok(()) => {}
+            Err(e) => {
+                core::mem::forget(e);
+                assert!(false, "write succeeds");
+            }
+        }
+        w.len()
+    };
+    assert!(left == 8, "write emits 32 bytes");
+    let i: usize = kani::any();
+    kani::assume(i < 32);
+    assert!(out[i] == buf[i], "every payload byte survives read -> write");
+}
